@@ -20,7 +20,7 @@ TraceInit == /\ cur = 1 /\ doc = Null /\ doc0 = Null /\ hist = <<>> /\ last = [b
 
 \* how an outcome that is not allowed left the action (kind of the deviation)
 Changed(before, after, m) ==
-  LET S == IF m.op \in {"Set", "SetOne"} THEN LocsOnly(Dedup(Locs(m.path, SetMax(before, m.path, m.v)))) ELSE Sel(before, m)
+  LET S == IF m.op \in {"Set", "SetOne"} THEN OneCands(before, m, SetMax(before, m.path, m.v)) ELSE Sel(before, m)
       ls == AllLocs(before)
       shifts == m.op = "Remove" IN
   \E j \in 1..Len(ls) : ~Touched(ls[j], S) /\ LET l2 == IF shifts THEN Reindex(ls[j], S) ELSE ls[j] IN
